@@ -62,6 +62,105 @@ def check_rows(assembled, parts, what, viol, desc):
         viol.append(dict(desc, kind=f"{what}: number of rows changed", got=len(an), expected=off))
 
 
+def shared_state_channels():
+    import jax.numpy as jnp
+    from jaxley.channels import Channel
+
+    class Pump(Channel):
+        def __init__(self, name=None):
+            self.current_is_in_mA_per_cm2 = True
+            super().__init__(name)
+            self.channel_params = {"Pump_tau": 2.0}
+            self.channel_states = {"c": 0.1}
+            self.current_name = "i_Pump"
+
+        def update_states(self, u, dt, v, params):
+            target = 1.0 / (1.0 + jnp.exp(-(v + 60.0) / 5.0))
+            return {"c": u["c"] + dt * (target - u["c"]) / params["Pump_tau"]}
+
+        def compute_current(self, u, v, params):
+            return jnp.zeros_like(v)
+
+        def init_state(self, states, v, params, delta_t):
+            return {}
+
+    class Nernst(Channel):
+        def __init__(self, name=None):
+            self.current_is_in_mA_per_cm2 = True
+            super().__init__(name)
+            self.channel_params = {"Nernst_g": 1e-3}
+            self.channel_states = {"c": 0.1, "eX": -50.0}
+            self.current_name = "i_X"
+
+        def update_states(self, u, dt, v, params):
+            return {"eX": -100.0 + 100.0 * u["c"]}
+
+        def compute_current(self, u, v, params):
+            return params["Nernst_g"] * (v - u["eX"])
+
+        def init_state(self, states, v, params, delta_t):
+            return {}
+
+    return Pump, Nernst
+
+
+def shared_state_section(ctx, viol, distinct):
+    """cell A inserts Pump then Nernst (Nernst reads the concentration Pump has just written), cell B only
+    Nernst.  A alone, A in Network([A, B]) and A in Network([B, A]) must agree."""
+    import numpy as np
+    import jaxley as jx
+    from jaxley.channels import Leak
+    from simlib import quiet
+    Pump, Nernst = shared_state_channels()
+    rng = ctx.rng
+    evals = 0
+
+    def make(kind, nbr):
+        comp = jx.Compartment()
+        cell = jx.Cell([jx.Branch([comp, comp])] * nbr, parents=[-1] + [0] * (nbr - 1))
+        cell.insert(Leak())
+        for ch in ([Pump, Nernst] if kind == "A" else [Nernst, Pump] if kind == "A'" else [Nernst]):
+            cell.insert(ch())
+        return cell
+
+    def sim(m, views):
+        cur = jx.step_current(i_delay=0.5, i_dur=3.0, i_amp=0.05, delta_t=0.025, t_max=5.0)
+        for v in views:
+            v.stimulate(cur, verbose=False)
+        m.record("v", verbose=False)
+        return np.asarray(jx.integrate(m, delta_t=0.025, t_max=5.0))
+
+    for _ in range(ctx.budget(1, 3)):
+        nbr = rng.randint(1, 3)
+        for order in (["A", "B"], ["B", "A"], ["A", "A'"]):
+            case = {"cells": order, "nbranches": nbr, "channels": {"A": ["Leak", "Pump", "Nernst"], "B": ["Leak", "Nernst"], "A'": ["Leak", "Nernst", "Pump"]}}
+            distinct.add(("shared", tuple(order), nbr))
+            try:
+                with quiet():
+                    alone = []
+                    for k in order:
+                        c = make(k, nbr)
+                        alone.append(sim(c, [c.branch(0).comp(0)]))
+                    net = jx.Network([make(k, nbr) for k in order])
+                    out = sim(net, [net.cell(i).branch(0).comp(0) for i in range(len(order))])
+                evals += 1
+                off = 0
+                for i, k in enumerate(order):
+                    n = alone[i].shape[0]
+                    d = float(np.abs(out[off:off + n] - alone[i]).max())
+                    off += n
+                    if d > 1e-9:
+                        own = [c._name for c in make(k, 1).channels]
+                        asm = [c for c in (ch._name for ch in net.channels) if c in own]
+                        reordered = asm != own
+                        viol.append(dict(case, kind="a cell with channels that share a state does not simulate inside a synapse-free network as the cell alone",
+                                         cell=i, cell_kind=k, max_abs_diff=d, own_channel_order=own, order_in_network=asm,
+                                         finding_class="channel_update_order_follows_first_appearance" if reordered else None))
+            except Exception as ex:
+                viol.append(dict(case, kind="shared-state network raised", error=repr(ex)[:300], finding_class=None))
+    return evals
+
+
 def run(ctx):
     import numpy as np
     import jaxley as jx
@@ -208,6 +307,10 @@ def run(ctx):
                 if max(abs(a - b) for a, b in zip(back, base)) > 1e-9:
                     viol.append(dict(case, kind="listing sibling branches in another order changes the results beyond the permutation",
                                      backend=vs, got=back, expected=base))
+    # ---- D. channels that communicate through a shared state (the pump / reversal-potential pattern of
+    # tests/test_shared_state.py): the update order of a constituent's channels must not depend on what is
+    # listed before it
+    evals += shared_state_section(ctx, viol, distinct)
     for v in viol:
         v.setdefault("finding_class", None)
     return {"evaluations": evals, "distinct_nontrivial": len(distinct),
